@@ -1,15 +1,25 @@
 #!/usr/bin/env python3
-"""MANIFEST.setup_cmd: build the Lean library, the property theorems and the model driver from
-files on disk (offline). Harness binaries are built by the checks themselves from /repo's working
-tree."""
-import os, subprocess, sys
+"""MANIFEST.setup_cmd: regenerate the constants, build the model driver and the property theorems
+of every registered check from files on disk (offline). Harness binaries are built by the checks
+themselves from /repo's working tree (cached by content hash under /verif/.cache)."""
+import json
+import os
+import subprocess
+import sys
+
 HERE = os.path.dirname(os.path.abspath(__file__))
 VERIF = os.path.dirname(HERE)
+
+
 def main():
     r = subprocess.run([sys.executable, os.path.join(HERE, "extract_constants.py")])
     if r.returncode != 0:
         sys.exit(r.returncode)
-    r = subprocess.run(["lake", "build"], cwd=os.path.join(VERIF, "lean"))
+    man = json.load(open(os.path.join(VERIF, "MANIFEST.json")))
+    targets = ["yakmodel"] + sorted({"YakProps." + c["property_id"] for c in man.get("checks", [])})
+    r = subprocess.run(["lake", "build"] + targets, cwd=os.path.join(VERIF, "lean"))
     sys.exit(r.returncode)
+
+
 if __name__ == "__main__":
     main()
